@@ -443,8 +443,30 @@ def run(c):
     ths = [threading.Thread(target=tlc_job, args=(k,)) for k in jobs]
     for t in ths:
         t.start()
+    # 0. the pool composed with the chain service and local production (spec/node/NodePool.tla): behaviours with
+    #    reorganisations, failing roll-forwards and production replayed on a node with the REAL pool; the pool-side oracles
+    #    (nothing stale, nothing of the main chain pooled, offered runs gap-free from state+1, returned transactions pooled,
+    #    counters) belong to C13.  Quick tier: fewer behaviours than C04 replays, and the whole part runs BESIDE the TLC jobs
+    #    above (they leave most cores idle for 1-2 minutes) - this thread is the only one that touches `c` until it is joined,
+    #    and it is joined before this check builds its own harness (no two Go builds at a time).  Thorough tier: at the end
+    #    of run() (memory: the big NodePool configurations next to MC_Mempool_big).
+    np_err = []
+
+    def nodepool_job():
+        try:
+            from checks import nodepool_common
+            nodepool_common.run_nodepool(c, "C13", quick_cover=140, quick_sim=50)
+        except BaseException as e:      # re-raised in the main thread
+            np_err.append(e)
+    np_thread = threading.Thread(target=nodepool_job) if quick else None
+    if np_thread:
+        np_thread.start()
     for t in ths:
         t.join()
+    if np_thread:
+        np_thread.join()
+        if np_err:
+            raise np_err[0]
     for k in jobs:
         if isinstance(results[k], Exception):
             raise vlib.Infra("TLC job %s failed: %s" % (k, results[k]))
@@ -544,7 +566,7 @@ def run(c):
                     "no interleaving of the critical sections of Mempool.tla explains the recorded concurrent run %s (%s back end): "
                     "stuck at event %d of %d: %s" % (head.get("run"), head.get("backend"), bad, len(evs), json.dumps(e)[:400]))
         return
-    c.traces_validated = conc["runs"]
+    c.traces_validated += conc["runs"]
     # binding self-test: a run in which one accepted put is reported as rejected must be refused
     idx = [i for i, e in enumerate(evs) if e["ev"] == "call" and e.get("op") == "put" and e.get("res") == "ok"]
     if not idx:
@@ -557,12 +579,10 @@ def run(c):
         raise vlib.Infra("binding self-test failed: corrupted trace accepted")
     c.notes.append("self-test: trace with put result flipped at event %d rejected at event %d" % (i, first + reached2))
 
-    # 4. the pool composed with the chain service and local production (spec/node/NodePool.tla): behaviours with
-    #    reorganisations, failing roll-forwards and production replayed on a node with the REAL pool; the pool-side oracles
-    #    (nothing stale, nothing of the main chain pooled, offered runs gap-free from state+1, returned transactions pooled,
-    #    counters) belong to C13.  Fewer behaviours than C04 runs in the quick tier (wall time).
-    from checks import nodepool_common
-    nodepool_common.run_nodepool(c, "C13", quick_cover=140, quick_sim=50)
+    # 4. thorough tier: the NodePool composition (see step 0; the quick tier has run it beside the TLC jobs)
+    if not quick:
+        from checks import nodepool_common
+        nodepool_common.run_nodepool(c, "C13")
 
 
 def _stacks(rep):
